@@ -27,6 +27,11 @@ ORDER = {'seg2': 2, 'seg3': 3, 'seg4': 4}
 
 # ---- result formatting: (python value, kind) -> coq comparison of `got` against it
 def cmp_expr(kind, got, val, tol=None):
+    if isinstance(kind, tuple) and kind[0] == 'T':
+        parts = [cmp_expr(k, f'x{i}_', v, tol) for i, (k, v) in enumerate(zip(kind[1], val))]
+        pat = 'x0_'
+        for i in range(1, len(kind[1])): pat = f'({pat}, x{i}_)'
+        return f"(let '{pat} := {got} in " + ' && '.join(parts) + ')'
     if kind == 'S':
         if val is True or val is False: raise TypeError('bool where scalar expected')
         return f'feq ({got}) {vlib.fhex(val)}' if tol is None else f'fclose {vlib.fhex(tol)} ({got}) {vlib.fhex(val)}'
